@@ -1,12 +1,12 @@
 ---------------------------- MODULE PathJail ----------------------------
-(* Component-wise path normalisation and containment for #include. Paths are sequences of
-   component strings; "" as first component = absolute. *)
+(* Component-wise path normalisation and containment for #include and require() (C12).
+   Paths are sequences of component strings relative to the sandbox root; "" as first component
+   of an argument = absolute path (restart at the sandbox root, which plays the role of /).
+   Generator: every argument of at most MaxLen components over Comps, with the locations it
+   resolves to and whether each lies under a permitted root. *)
 EXTENDS Naturals, Sequences, SequencesExt, FiniteSets, TLC, Json
-CONSTANTS MaxLen
+CONSTANTS MaxLen, Mode          \* Mode: "include" | "require"
 Comps == {"a", "foo", "foobar", "..", ".", ""}
-\* the sandbox: /S/w/foo/cart.p8 is the including cart; include root = /S/w/foo
-CartDir == <<"S", "w", "foo">>
-Root == CartDir
 RECURSIVE NormFrom(_, _, _)
 NormFrom(stack, comps, k) ==
   IF k > Len(comps) THEN stack
@@ -15,15 +15,43 @@ NormFrom(stack, comps, k) ==
     ELSE IF c = "" \/ c = "." THEN NormFrom(stack, comps, k + 1)
     ELSE IF c = ".." THEN NormFrom(IF stack = <<>> THEN <<>> ELSE SubSeq(stack, 1, Len(stack) - 1), comps, k + 1)
     ELSE NormFrom(Append(stack, c), comps, k + 1)
-\* where "#include <comps>/x.lua" written in the cart resolves to
-Target(comps) == NormFrom(CartDir, comps \o <<"x.lua">>, 1)
 Under(root, p) == IsPrefix(root, p) /\ Len(p) > Len(root)
-StringPrefixUnder(root, p) ==      \* the mutant: compare joined strings
-   LET J(q) == FoldLeft(LAMBDA acc, c : acc \o "/" \o c, "", q) IN
-   \E n \in 0..40 : FALSE          \* (strings cannot be sliced in TLC; mutant is modelled in MC_PathJail on char sequences)
-VARIABLE inc
-Init == inc = <<>>
-Next == Len(inc) < MaxLen /\ \E c \in Comps : inc' = Append(inc, c)
-Spec == Init /\ [][Next]_inc
-Emit == PrintT(ToJson([inc |-> inc, target |-> Target(inc), inside |-> Under(Root, Target(inc))]))
+\* the mutant: containment decided on the joined string (a sibling whose name merely starts with the root's name passes)
+StrPrefixUnder(root, p) == Len(p) >= Len(root) /\ SubSeq(p, 1, Len(root) - 1) = SubSeq(root, 1, Len(root) - 1)
+                           /\ root # <<>> /\ p[Len(root)] \in {root[Len(root)], root[Len(root)] \o "bar"}
+\* ---- #include: three cart locations ----
+Carts == <<"home", ".lexaloffle", "pico-8", "carts">>
+CartDir(loc) == CASE loc = "plain" -> <<"w", "foo">>
+                  [] loc = "carts" -> Carts \o <<"foo">>
+                  [] loc = "sibling" -> <<"home", ".lexaloffle", "pico-8", "cartsbar", "foo">>
+\* include root: the PICO-8 carts folder if the cart is (component-wise) inside it, else the cart's directory
+IncRoot(loc) == IF Under(Carts, CartDir(loc) \o <<"cart.p8">>) THEN Carts ELSE CartDir(loc)
+IncTarget(loc, arg) == NormFrom(CartDir(loc), arg \o <<"x.lua">>, 1)
+\* ---- require(): load-path configurations; a template = [abs, pre, ext, post] ----
+Tpl(abs, pre, ext, post) == [abs |-> abs, pre |-> pre, ext |-> ext, post |-> post]
+LoadPath(cfg) == CASE cfg = "default" -> << Tpl(FALSE, <<>>, "", <<>>), Tpl(FALSE, <<>>, ".lua", <<>>) >>
+                   [] cfg \in {"relative", "env"} -> << Tpl(FALSE, <<"lib">>, ".lua", <<>>), Tpl(FALSE, <<>>, "", <<"init.lua">>) >>
+                   [] cfg = "absolute" -> << Tpl(TRUE, <<"libs">>, ".lua", <<>>) >>
+MainDir == <<"w", "foo">>
+WithExt(arg, ext) == IF arg = <<>> THEN <<ext>> ELSE SubSeq(arg, 1, Len(arg) - 1) \o << arg[Len(arg)] \o ext >>
+ReqTarget(t, arg) == NormFrom(IF t.abs THEN <<>> ELSE MainDir, t.pre \o WithExt(arg, t.ext) \o t.post, 1)
+ReqRoots(cfg) == {MainDir} \cup {NormFrom(IF LoadPath(cfg)[i].abs THEN <<>> ELSE MainDir, LoadPath(cfg)[i].pre, 1) : i \in 1..Len(LoadPath(cfg))}
+VARIABLE arg
+Init == arg = <<>>
+Next == Len(arg) < MaxLen /\ \E c \in Comps : arg' = Append(arg, c)
+Spec == Init /\ [][Next]_arg
+Locs == <<"plain", "carts", "sibling">>
+Cfgs == <<"default", "relative", "absolute", "env">>
+Emit == IF Mode = "include"
+        THEN PrintT(ToJson([arg |-> arg, cases |-> [i \in 1..3 |-> [loc |-> Locs[i], cartdir |-> CartDir(Locs[i]), root |-> IncRoot(Locs[i]),
+                                  target |-> IncTarget(Locs[i], arg), inside |-> Under(IncRoot(Locs[i]), IncTarget(Locs[i], arg))]]]))
+        ELSE PrintT(ToJson([arg |-> arg, cases |-> [i \in 1..4 |-> [cfg |-> Cfgs[i], roots |-> SetToSeq(ReqRoots(Cfgs[i])),
+                                  cands |-> [j \in 1..Len(LoadPath(Cfgs[i])) |->
+                                      LET tg == ReqTarget(LoadPath(Cfgs[i])[j], arg) IN
+                                        [target |-> tg, inside |-> \E r \in ReqRoots(Cfgs[i]) : Under(r, tg)]]]]]))
+\* ---- properties of the spec itself (MC_PathJail) ----
+NormIdempotent == NormFrom(<<>>, NormFrom(MainDir, arg, 1), 1) = NormFrom(MainDir, arg, 1)
+UnderKeptByNames == \A c \in {"a", "foo", "foobar"} : Under(MainDir, NormFrom(MainDir, arg, 1) \o <<"q">>) => Under(MainDir, NormFrom(MainDir, arg, 1) \o <<c, "q">>)
+\* the string-prefix containment test accepts an escaping location: must be reported by TLC
+NoPrefixConfusion == StrPrefixUnder(MainDir, IncTarget("plain", arg)) => Under(MainDir, IncTarget("plain", arg))
 =============================================================================
